@@ -4,7 +4,10 @@ character matches only itself."""
 
 
 def _lower(c):
-    return c.lower() if c.isascii() else c
+    # ASCII plus the simple one-to-one case pairs of the few non-ASCII letters the generators use (e-acute,
+    # z-acute, ...): Rust's regex (?i) folds those too. Characters with multi-character mappings keep themselves.
+    l = c.lower()
+    return l if len(l) == 1 and len(c.upper()) == 1 else c
 
 
 def wild_match(pattern, subject, many, one):
